@@ -41,6 +41,9 @@ func runOpsProp(r *Run, prop string) error {
 	if prop == "C01" || prop == "C05" {
 		insertFamily(r, prop)
 	}
+	if prop == "C04" {
+		c04TraitIdLists(r)
+	}
 	var famsSeen []*family
 	for h := 0; h < histories; h++ {
 		f := newFamily(r.Rng)
